@@ -55,7 +55,8 @@ Init == c \in [k : {"group"}, net : Nets, ver : 0..31]
 Next == /\ c.k = "group"
         /\ c' \in (IF c.ver \in Vers THEN RtCases(c.net, c.ver) ELSE {})
                   \cup InvCases(c.net, c.ver)
-                  \cup (IF c.net = "mainnet" /\ c.ver \in SubKinds THEN SubCases(c.ver) ELSE {})
+                  \cup (IF c.net = "mainnet"               \* spread over the 32 mainnet groups (parallel workers)
+                        THEN UNION {{x \in SubCases(kind) : x.pos % 32 = c.ver} : kind \in SubKinds} ELSE {})
 
 (* ---- rt ---- *)
 P      == Prog(c.n, c.ct)
